@@ -10,7 +10,6 @@ use serde::{Deserialize, Serialize};
 use crate::engine::{hash_f64s, part, Ctx, PartDef, Rec};
 use crate::gen::{is_oblique, mixf};
 use crate::geom::{self, Aff, Lattice, P};
-use crate::props::c12::to_transform;
 use crate::statejson::{self, lj_shape, Params, ShapeSpec, StateSpec};
 
 pub const TITLE: &str = "The Lennard-Jones score is minus the crystal's lattice energy per molecule";
@@ -96,9 +95,25 @@ pub fn lattice_energy(shape: &LJShape2, group: usize, p: &Params, rho: f64, max_
     lattice_energy_copies(shape, &lat, &copies, rho, max_shell)
 }
 
+/// the molecule moved by the harness's own affine map (particle parameters untouched); the package's
+/// LJShape2::transform is not used by the oracle
+fn place(shape: &LJShape2, c: &Aff) -> LJShape2 {
+    LJShape2 {
+        name: shape.name.clone(),
+        items: shape
+            .items
+            .iter()
+            .map(|a| {
+                let q = c.apply(crate::geom::P::new(a.position.x, a.position.y));
+                packing::LJ2 { position: nalgebra::Point2::new(q.x, q.y), sigma: a.sigma, epsilon: a.epsilon, cutoff: a.cutoff }
+            })
+            .collect(),
+    }
+}
+
 /// the same for any list of placed copies (several occupied sites)
 pub fn lattice_energy_copies(shape: &LJShape2, lat: &Lattice, copies: &[Aff], rho: f64, max_shell: Option<i64>) -> Sum {
-    let placed: Vec<LJShape2> = copies.iter().map(|c| shape.transform(&to_transform(c))).collect();
+    let placed: Vec<LJShape2> = copies.iter().map(|c| place(shape, c)).collect();
     let a = lat.va();
     let b = lat.vb();
     let mut s = Sum { energy: 0., abs: 0., pairs: 0, max_index: 0, min_r: f64::INFINITY, nontrivial: false };
@@ -137,7 +152,7 @@ pub fn lattice_energy_copies(shape: &LJShape2, lat: &Lattice, copies: &[Aff], rh
                 }
                 let shift = a.scale(*n as f64).add(b.scale(*m as f64));
                 let moved = Aff { l: copies[j].l, t: copies[j].t.add(shift) };
-                let other = shape.transform(&to_transform(&moved));
+                let other = place(shape, &moved);
                 let e = 0.5 * (placed[i].energy(&other) + other.energy(&placed[i]));
                 for x in placed[i].items.iter() {
                     for y in other.items.iter() {
